@@ -409,12 +409,20 @@ func TestVX_C16(t *testing.T) {
 	// start orders: fans are symmetric except for their settle model, and every assignment of settle models to
 	// start positions is enumerated, so all start orders are covered by construction.
 	// non-vacuity: the same schedules with the option on must be able to overlap
+	// Half of them run BEFORE the option-off schedules of the same process and half after them: the option may change
+	// between two analyses of one process, and the decision taken for an earlier analysis must not stick.
 	np := len(cases)
+	var before, after []vxC16Case
 	for i := 0; i < np && i < 40; i++ {
 		c := cases[i]
 		c.Parallel = true
-		cases = append(cases, c)
+		if i%2 == 0 {
+			before = append(before, c)
+		} else {
+			after = append(after, c)
+		}
 	}
+	cases = append(append(before, cases...), after...)
 	deadline := mc.Deadline(70*time.Second, 13*time.Minute)
 	for i, c := range cases {
 		if !mc.Mine(i) {
